@@ -51,7 +51,12 @@ def handler_table(ctx):
                     rows_ = [(x[0], x[1]) for x in seq]
                     table = n.value
         if rows_ is None:
-            extra = {"__values__": vals}
+            class _ConstsNS:
+                mi_native = True
+            cns = _ConstsNS()
+            for k_, v_ in vals.items():
+                setattr(cns, k_.split(".", 1)[1], v_)
+            extra = {"__values__": vals, "__globals__": {"consts": cns}}
             extra["__global_lookup__"] = K.module_function_lookup(ctx, ft.module, extra)
             try:
                 got = MI.call_function(ft.node, [_Cls()], extra)
@@ -727,7 +732,34 @@ def run(ctx, rep):
         raise AnalysisError("helpers.restricted no longer defines a view class")
     view = cls_nodes[0]
     methods = {m.name: m for m in view.body if isinstance(m, ast.FunctionDef)}
-    for hook, lst, op in (("_rpyc_getattr", rprm[1], "getattr"), ("_rpyc_setattr", rprm[2], "setattr")):
+    # which names of the enclosing function hold the read list / the effective write list when the view class is created?
+    # (model evaluation of the statements that precede the class: wattrs=None -> the read list, else the given write list)
+    from .. import miniinterp as MIr
+    prefix = []
+    for st in fr.node.body:
+        if st is view:
+            break
+        if not (isinstance(st, ast.Expr) and isinstance(st.value, ast.Constant)):
+            prefix.append(st)
+    local_names = sorted(set(rprm) | {x.id for st in prefix for x in A.walk(st) if isinstance(x, ast.Name) and isinstance(x.ctx, ast.Store)})
+    probe = ast.FunctionDef(name="_prefix", args=fr.node.args, decorator_list=[], returns=None, type_params=[],
+                            body=[A.clone(st) for st in prefix] + [ast.Return(value=ast.Dict(
+                                keys=[ast.Constant(value=n_) for n_ in local_names],
+                                values=[ast.Name(id=n_, ctx=ast.Load()) for n_ in local_names]))])
+    ast.fix_missing_locations(probe)
+    read_names, write_names = {rprm[1]}, {rprm[2]}
+    try:
+        RD, WR = MIr.ModelObj("read list"), MIr.ModelObj("write list")
+        e1 = MIr.call_function(probe, ["OBJ", RD, None], {"__max_iter__": 50})
+        e2 = MIr.call_function(probe, ["OBJ", RD, WR], {"__max_iter__": 50})
+        e3 = MIr.call_function(probe, ["OBJ", RD, ()], {"__max_iter__": 50})      # an empty write list: nothing is writable
+        read_names = {n_ for n_ in local_names if e1.get(n_) is RD and e2.get(n_) is RD and e3.get(n_) is RD}
+        write_names = {n_ for n_ in local_names if e1.get(n_) is RD and e2.get(n_) is WR and e3.get(n_) == () and
+                       isinstance(e3.get(n_), tuple)}
+        okd_model = bool(write_names)
+    except (MIr.Raised, AnalysisError):
+        okd_model = None
+    for hook, lst, op in (("_rpyc_getattr", read_names, "getattr"), ("_rpyc_setattr", write_names, "setattr")):
         m = methods.get(hook)
         if m is None:
             rep.ob("R06.6", "restricted: the view defines %s" % hook, False,
@@ -745,15 +777,15 @@ def run(ctx, rep):
             guarded = False
             for t, pol in conds:
                 if isinstance(t.ast, ast.Compare) and len(t.ast.ops) == 1 and A.src(t.ast.left) == nm and \
-                        A.src(t.ast.comparators[0]) == lst:
+                        A.src(t.ast.comparators[0]) in lst:
                     if (isinstance(t.ast.ops[0], ast.NotIn) and pol is False) or (isinstance(t.ast.ops[0], ast.In) and pol is True):
                         guarded = True
             c = A.find_calls(s.ast, op)[0]
             target_ok = A.src(c.args[0]) == rprm[0] and A.src(c.args[1]) == nm
             okall = okall and guarded and target_ok
         rep.ob("R06.6", "restricted.%s: the wrapped object is touched only for listed names" % hook, okall,
-               "%s(obj, name) is dominated by `name in %s`" % (op, lst) if okall else
-               "the view reaches %s on the wrapped object without the guard `name in %s`" % (op, lst), f.loc)
+               "%s(obj, name) is dominated by `name in %s`" % (op, "/".join(sorted(lst))) if okall else
+               "the view reaches %s on the wrapped object without the guard `name in <%s list>`" % (op, "read" if op == "getattr" else "write"), f.loc)
         # the refusing branch raises AttributeError
         raised = set()
         for n in g.live:
@@ -773,7 +805,7 @@ def run(ctx, rep):
            ctx.loc(view), kind="site")
     # wattrs default
     dflt = [n for n in A.walk(fr.node) if isinstance(n, ast.If) and "is None" in A.src(n.test) and rprm[2] in A.src(n.test)]
-    okd = bool(dflt) and A.norm(dflt[0].body[0]) == "%s = %s" % (rprm[2], rprm[1])
+    okd = (bool(dflt) and A.norm(dflt[0].body[0]) == "%s = %s" % (rprm[2], rprm[1])) if okd_model is None else okd_model
     rep.ob("R06.6", "restricted: writable names default to the readable names", okd,
            "`if wattrs is None: wattrs = attrs`" if okd else "the default of the writable list changed", fr.loc, kind="site")
 
